@@ -5,6 +5,7 @@ import random
 from fractions import Fraction
 
 from . import families as F
+from . import histories as H
 
 ID = "C01"
 HEAVY = False
@@ -21,7 +22,7 @@ ASSUMPTIONS = [
 ]
 OUTSIDE = ["float rounding", "knowledge sets not listed for n>=5", "n>=8"]
 STUBS = ["np proxy (float allocations -> object arrays)", "SymArray reductions max/min/sum/all/any"]
-HISTORIES = ["stale", "reveal_unreveal", "bulk_reset"]
+HISTORIES = ["stale", "reveal_unreveal", "bulk_reset"]      # + "ops<j>": seeded operation histories (harness/histories.py)
 
 
 def bounds_text(tier):
@@ -51,6 +52,17 @@ def tasks(tier, seed):
             for K in F.sample([k for k in fam if len(k) < len(F.extras(n))], 8 if tier == "quick" else 64, seed, hist):
                 for comp in COMPUTERS:
                     add(n, K, comp, hist)
+        # seeded operation histories on one object (harness/histories.py): state kept outside the value table is only reachable this way
+        nh = (3 if n == 3 else 1) if tier == "quick" else (6 if n == 3 else 2)
+        pool = fam if n == 3 else F.sample([k for k in fam if len(k) < len(F.extras(n))], 40 if tier == "quick" else 200, seed, "ops")
+        for K in pool:
+            for j in range(nh):
+                for comp in COMPUTERS:
+                    add(n, K, comp, f"ops{j}")
+    fam5h, _ = F.family(5, "quick", seed)
+    for K in F.sample(fam5h, 6 if tier == "quick" else 40, seed, "ops5"):
+        for comp in COMPUTERS:
+            add(5, K, comp, "ops0")
     if tier == "thorough":
         fam5, _ = F.family(5, tier, seed)
         for comp in COMPUTERS:
@@ -89,6 +101,9 @@ def setup(params, inp, lg):
         if S not in known:
             inp.real(f"staleL{S}")
             inp.real(f"staleU{S}")
+    if str(params.get("history", "")).startswith("ops"):
+        for nm in H.stale_names(H.plan(n, params["K"], params["history"])):
+            inp.real(nm)
     return F.sa_constraints(v, n, lg)
 
 
@@ -101,7 +116,9 @@ def build_game(pk, params, inp, v, computer=None, stale_prefix="stale"):
     known = sorted(set(F.minimal(n)) | set(params["K"]))
     unknown = [S for S in range(2 ** n) if S not in set(known)]
     hist = params.get("history", "stale")
-    if hist == "reveal_unreveal" and unknown:
+    if hist.startswith("ops"):
+        g = H.apply(pk, g, v, H.plan(n, params["K"], hist), inp)
+    elif hist == "reveal_unreveal" and unknown:
         X = unknown[len(unknown) // 2]
         g.set_known_values([v[S] for S in known], [C(S) for S in known])
         g.reveal_value(v[X], C(X))
@@ -180,5 +197,8 @@ def test_vectors(params):
         for S in range(2 ** n):
             d[f"staleL{S}"] = Fraction(rnd.randint(-40, 40), 4)
             d[f"staleU{S}"] = Fraction(rnd.randint(-40, 40), 4)
+        for k in range(12):
+            d[f"hs{k}L"] = Fraction(rnd.randint(-40, 40), 4)
+            d[f"hs{k}U"] = Fraction(rnd.randint(-40, 40), 4)
         vecs.append(d)
     return vecs
